@@ -902,6 +902,55 @@ func Check(res *Result) []Fail {
 				break
 			}
 		}
+		// stamp rules on what each produce set carries (hook events bp.sent.stamp / bp.sent, pp.seq, retry, retrybatch):
+		//   R1  a batch never carries an epoch older than the stamp of one of its messages
+		//   R2  a whole-batch resend (retryBatch) goes out under the stamp of its previous send
+		//   R3  before any epoch bump a message goes out under exactly the stamp it was given
+		{
+			type st struct{ epoch, seq int }
+			msgStamp := map[int]st{}
+			lastSent := map[int]st{}
+			lastReentry := map[int]string{}
+			bumpedSoFar := false
+			stampedSoFar := map[int]bool{}
+			var cur *st
+			for _, e := range res.Events {
+				switch e.Kind {
+				case "pp.seq":
+					msgStamp[e.ID] = st{e.B, e.A}
+					stampedSoFar[e.ID] = true
+				case "ret.err":
+					if stampedSoFar[e.ID] {
+						bumpedSoFar = true
+					}
+				case "retry", "retrybatch":
+					lastReentry[e.ID] = e.Kind
+				case "bp.sent.stamp":
+					cur = &st{e.A, e.B}
+				case "bp.sent":
+					if cur == nil || e.ID <= 0 {
+						continue
+					}
+					wire := st{cur.epoch, cur.seq + e.B}
+					ms, has := msgStamp[e.ID]
+					if has && wire.epoch < ms.epoch {
+						add("C05:batch-epoch-older-than-message-stamp", "message %d stamped (epoch %d, sequence %d) was sent in a batch of epoch %d", e.ID, ms.epoch, ms.seq, wire.epoch)
+					}
+					if prev, sent := lastSent[e.ID]; sent && lastReentry[e.ID] == "retrybatch" && prev != wire {
+						add("C05:retrybatch-resend-restamped", "message %d resent by retryBatch under (epoch %d, sequence %d), previous send was (epoch %d, sequence %d)", e.ID, wire.epoch, wire.seq, prev.epoch, prev.seq)
+					}
+					if has && !bumpedSoFar && wire != ms {
+						add("C05:wire-stamp-differs-from-message-stamp-before-any-epoch-bump", "message %d stamped (epoch %d, sequence %d) went out as (epoch %d, sequence %d)", e.ID, ms.epoch, ms.seq, wire.epoch, wire.seq)
+					}
+					if !has {
+						add("C05:message-sent-without-sequence", "message %d was sent by the idempotent producer without having been given a sequence number", e.ID)
+					}
+					lastSent[e.ID] = wire
+				case "bp.sent.end":
+					cur = nil
+				}
+			}
+		}
 		// within one epoch, first sends of a partition are consecutive; resends identical
 		type key struct {
 			p     int32
